@@ -7,7 +7,8 @@ import qgen, qdriver
 UNITS = [[[None, "meter", 1]], [[None, "second", 1]], [[None, "gram", 1]], [[None, "bit", 1]], [[None, "byte", 1]], [[None, "newton", 1]],
          [[None, "meter", 1], [None, "second", -1]], [[None, "meter", 2]], [[None, "hertz", 1]], [[None, "liter", 1]], [[None, "one", 1]],
          [["kilo", "meter", 1], [None, "second", -2]], [[None, "ohm", 1]], [[None, "foot", 1]], [[None, "radian", 1]], [[None, "kilogram", 1]]]
-MAGS = [["int", "3", "1"], ["int", "-2", "1"], ["int", "1", "1"], ["float", "5", "2"], ["float", "-1", "8"], ["dec", "5", "4"], ["int", "0", "1"]]
+MAGS = [["int", "3", "1"], ["int", "-2", "1"], ["int", "1", "1"], ["float", "5", "2"], ["float", "-1", "8"], ["dec", "5", "4"], ["int", "0", "1"],
+        ["dec", "1234567890123", "1000000"], ["dec", "-98765432109876543", "10000000000"]]      # Decimals of more significant digits than any fixed small context keeps
 
 def main():
     c = Check("C11")
